@@ -2,6 +2,7 @@ package main
 
 import (
 	"fmt"
+	"reflect"
 
 	"github.com/gopacket/gopacket"
 
@@ -70,6 +71,29 @@ func (s *c19State) one(t gopacket.LayerType, in []byte, how string) {
 		if m, ok := s.minOK[t]; ok && len(b) >= m {
 			c.NonTrivial(vlib.Mix(uint64(t), vlib.HashBytes(b)))
 		}
+	}
+	// (b') every other implementation of the in-place decoding interface that says it can decode this layer type
+	for _, rt := range dlImpl[t] {
+		if rt == dlTypes[t] {
+			continue
+		}
+		dl, _ := reflect.New(rt).Interface().(gopacket.DecodingLayer)
+		if dl == nil {
+			continue
+		}
+		for round := 0; round < 2; round++ { // fresh, then the same object again
+			if pi := vlib.Guard(func() {
+				if dl.DecodeFromBytes(b, gopacket.NilDecodeFeedback) == nil {
+					dl.NextLayerType()
+					dl.LayerPayload()
+				}
+			}); pi != nil {
+				c.Violation(pi.Key, fmt.Sprintf("%s.DecodeFromBytes panicked at %s:%d: %s", rt.Name(), pi.File, pi.Line, pi.Value), det())
+				break
+			}
+		}
+		c.Evals(1)
+		c.Count("other_decoding_layer_implementations_exercised", 1)
 	}
 	// (c) a parser over every known decoding layer that lets panics through
 	if s.parser != nil && dlTypes[t] != nil {
